@@ -99,6 +99,7 @@ func cmdVerify(args []string) {
 	dumpq := fs.String("dumpq", "", "write failing queries to this directory")
 	repo := fs.String("repo", "/repo", "repository")
 	mut := fs.String("mutate", "", "file::old::new  (apply a source edit through the loader overlay)")
+	showModel := fs.Bool("model", false, "print the entry state of the solver model for failing obligations")
 	fs.Parse(args)
 	t0 := time.Now()
 	var overlay map[string][]byte
@@ -196,6 +197,20 @@ func cmdVerify(args []string) {
 					for _, o := range byName[n] {
 						if o.Result != "unsat" {
 							fmt.Printf("\n        path %d: %s (%s) trace=%v  %s", o.PathID, o.Result, o.Solver, o.Trace, o.Text)
+							if *showModel {
+								if m := e.modelOf(o, d); m != nil {
+									var ks []string
+									for k := range m {
+										ks = append(ks, k)
+									}
+									sort.Strings(ks)
+									for _, k := range ks {
+										if !strings.Contains(k, "[") || m[k] != "0" {
+											fmt.Printf("\n          %s = %s", k, m[k])
+										}
+									}
+								}
+							}
 							if *dumpq != "" && o.Query != "" {
 								os.MkdirAll(*dumpq, 0o755)
 								fn := fmt.Sprintf("%s/%s_%d.smt2", *dumpq, mangle(o.Name), o.PathID)
